@@ -534,7 +534,18 @@ PRIORS = [
 NOOPS = ["set v9 = 1", "alter table t1 cluster by (a)", "alter table t1 set tag cost = 'x'", "create tag cost", "select a from t1", "use schema s2", "begin", "insert into t1 (a) values (1)"]
 
 
+def _warm_up_priors() -> None:
+    """fakesnow keeps process-level state (module-level expression objects); throw-away sessions run every prefix first so that such state is
+    the same in every path and in the replay process."""
+    for pre in PRIORS:
+        e0 = std_engine()
+        c0 = instance(e0).connect(database="db1", schema="s1")
+        for q in pre:
+            c0.cursor().execute(q)
+
+
 def _noop_writes_nothing(pi: int, ni: int, other_session: bool) -> bool:
+    _warm_up_priors()
     eng = std_engine()
     fs = instance(eng)
     conn = fs.connect(database="db1", schema="s1")
@@ -564,3 +575,30 @@ def noop_writes_nothing(pi: int, ni: int, other_session: bool) -> bool:
     post: _
     """
     return done(fast.native(_noop_writes_nothing, fast.pick(pi, len(PRIORS)), fast.pick(ni, len(NOOPS)), bool(fast.pick(other_session, 2))))
+
+
+# ------------------------------------------------------------------ independence of what happened before (shared harness)
+import obligations.shared_independence as _indep  # noqa: E402
+
+_IND_PRIORS = (6, 7, 8)
+
+
+@ob(
+    "C09.metadata_declared_elsewhere_does_not_leak",
+    encodes=["fakesnow.cursor.FakeSnowflakeCursor.execute/_transform/_execute/description/fetch*", "fakesnow.conn / fakesnow.variables / fakesnow.transforms (any state kept between statements)"],
+    bounds="prior activity: comments / lengths declared for OTHER tables (COMMENT ON and ALTER SET COMMENT in both orders, CREATE TABLE with metadata in another database); then one of " + str(len(_indep.SUBJECTS)) + " statements (queries, DML, DDL with metadata, COMMENT, "
+    "DESCRIBE, SHOW, USE, SET, MERGE, seeded RANDOM, BEGIN, a nop_regexes match, two failing statements, TRUNCATE) on the same or another cursor, tuple or "
+    "dict: SQL reaching the engine, rows, rowcount, description names, error, sqlstate, session context and the statement's own effect on catalog, "
+    "metadata and variables equal those on a fresh identical session",
+    timeout=(300, 600),
+    stubs=["K1/K2/K6 vf.duckstub.Engine"],
+    shards=(11, 11),
+)
+def independence(si: int, pk: int, as_dict: bool, same_cursor: bool) -> bool:
+    """
+    pre: 0 <= si < len(_indep.SUBJECTS) and 0 <= pk < len(_IND_PRIORS) and (SHARD < 0 or si % 11 == SHARD)
+    post: _
+    """
+    from vf import fast as _f
+
+    return done(_f.native(_indep.independent, _f.pick(si, len(_indep.SUBJECTS)), _IND_PRIORS[_f.pick(pk, len(_IND_PRIORS))], bool(_f.pick(as_dict, 2)), bool(_f.pick(same_cursor, 2))))
